@@ -398,7 +398,12 @@ class CallMixin:
                 if cj is not None and cj < 0:
                     continue
                 prev = self.recurrence_value(rec, key, j)
-                nxt = self.pure_call(step_fv, [prev, IntV(j)] + list(params))
+                try:
+                    nxt = self.pure_call(step_fv, [prev, IntV(j)] + list(params))
+                except PathPruned:
+                    if getattr(self, "small_instances", 0):
+                        continue     # an eagerly added instance outside the domain of the step function
+                    raise
                 fact = self.values_equal(self.recurrence_value(rec, key, z3.simplify(j + 1)), nxt)
                 ctx.ghost_axioms.append(z3.Implies(j >= 0, fact))
         return value
@@ -752,6 +757,24 @@ class CallMixin:
                 return TupleV(items) if desc.as_tuple else ListV(items)
             if desc in (dsl.Int, dsl.Bool, dsl.Real, dsl.Str):
                 return self.from_python(model.get(name, {dsl.Int: 0, dsl.Bool: False, dsl.Real: 0.0, dsl.Str: "s"}[desc]))
+            if isinstance(desc, dsl.SeqOf):
+                items = []
+                while has_keys(f"{name}[{len(items)}]", model) and len(items) < int(model.get(f"len({name})", 99)):
+                    items.append(self.fresh_resolved(desc.elem, f"{name}[{len(items)}]", is_input))
+                return self.seq_from_list(items, self.elem_type(desc.elem))
+            if isinstance(desc, dsl.DictOf) and getattr(desc, "total", False) and desc.key is dsl.Str:
+                import json as _json
+                kt, vt = self.elem_type(desc.key), self.elem_type(desc.value)
+                default = self.from_python(model.get(f"{name}.default", 0))
+                vals = z3.K(kt.sort, self.pack(default, vt))
+                prefix = name + "["
+                for key, value in model.items():
+                    if key.startswith(prefix) and key.endswith("]") and not key.endswith("[]"):
+                        text = StrV(s=_json.loads(key[len(prefix):-1]))
+                        vals = z3.Store(vals, self.pack(text, kt), self.pack(self.from_python(value), vt))
+                result = DictV(keys=self.seq_from_list([], kt), vals=vals, vt=vt)
+                result.total = True
+                return result
         if isinstance(desc, dsl.Opt):
             if self.ctx.decide(2) == 0:
                 return NONE
